@@ -112,6 +112,12 @@ CHECKS = {
             'workload is reported.',
             'one open known finding (evaluation.compute_global_segment_cost); attribute access on values and calls through local aliases only on reached paths',
             'DESIGN.md section 4 C20'),
+    'C08': ('stage-by-stage runtime monitor of the demo pipeline (values flowing between the public calls) + loop-bound monitor, on synthetic families and the bundled traces',
+            'simplify -> multi_knee(reduced curve) -> filter_worst_knees -> filter_corner_knees -> filter_clusters -> mapping is re-created for '
+            'every simplifier x detector x linkage x ranking mode (incl. the demos\' default hull) and checked for completion, loop bounds, '
+            'the subsequence law per filter stage, non-increasing heights and exact coordinate equality of the final indices.',
+            'stage parameters are generated inside each stage\'s documented domain; the add_points_even tail only for completion/index validity',
+            'DESIGN.md section 4 C08'),
 }
 
 BUILDING = {}   # id -> reason (properties not claimed yet)
